@@ -448,6 +448,7 @@ def main():
     jobs.append({'name': 'rich', 'files': RICH, 'seeds': seeds, 'full': ck.thorough})
     jobs.append({'name': 'rich-unity-flat', 'files': RICH, 'seeds': seeds, 'setup_args': ('--unity=on', '--layout=flat'), 'full': ck.thorough})
     jobs.append({'name': 'nolang', 'files': NOLANG, 'seeds': seeds, 'full': True})
+    jobs.append({'name': 'wraps', 'files': c6.WRAPS_PROJECT, 'seeds': seeds, 'full': True})
     specs = list(pg.enumerate_specs(3))
     pick = [s for i, s in enumerate(specs) if len(s) == 3 and i % (97 if not ck.thorough else 29) == ck.seed % 29]
     gen = []
